@@ -1,7 +1,9 @@
 """shared helper for SQL-backend witnesses: an in-memory DBStorage and signed events"""
 import asyncio
+import atexit
 import logging
 import os
+import shutil
 import tempfile
 
 logging.disable(logging.CRITICAL)
@@ -21,7 +23,8 @@ def make_event(key=0, kind=1, created_at=1000, tags=None, content="x"):
 
 
 async def open_storage(**options):
-    d = tempfile.mkdtemp(prefix="witness_")
+    d = tempfile.mkdtemp(prefix="witness_", dir="/dev/shm" if os.path.isdir("/dev/shm") else None)
+    atexit.register(shutil.rmtree, d, True)
     Config.load(os.environ.get("WITNESS_CONFIG", None), reload=True) if hasattr(Config, "load") and False else None
     st = DBStorage({"sqlalchemy.url": "sqlite+aiosqlite:///%s/db.sqlite3" % d, **options})
     await st.setup()
